@@ -151,20 +151,41 @@ pub fn t2() -> BoxedStrategy<Value> {
         0u8..48,
         (0u8..4, 0usize..6, 0u8..5, 0u8..14, 0u8..9, 0u8..4),
         (any::<bool>(), 0usize..3, any::<bool>(), 0u8..3),
+        (0usize..5, 1u32..3, 0u8..3),
     )
-        .prop_map(|(align, (a_r, site_i, b_r, c_r, keep, d_r), (via_snapshot, td_site_i, second_weak, rival))| {
+        .prop_map(|(align, (a_r, site_i, b_r, c_r, keep, d_r), (via_snapshot, td_site_i, second_weak, rival), (co_site_i, co_nth, co_resume))| {
+            // optional co-owner D whose release of its own Rc overlaps T's last drop
+            const CO_SITES: [u32; 5] = [0, site::DEC_S_LOAD, site::DEC_S_CAS, site::EPOCH_LOADED, site::EPOCH_LOAD];
+            let co_park = CO_SITES[co_site_i];
             const SITES: [u32; 6] = [0, site::INC_S_1, site::INC_S_2, site::IND_CAS, site::IND_LOAD, site::EPOCH_LOADED];
             const TD_SITES: [u32; 3] = [0, site::TD_LOAD, site::TD_CAS];
             let park = SITES[site_i];
             let td_park = TD_SITES[td_site_i];
-            let (t0, u, u2) = (0usize, 1usize, 2usize);
-            let mut t = TB::new(3);
+            let (t0, u, u2, dd) = (0usize, 1usize, 2usize, 3usize);
+            let mut t = TB::new(4);
             t.new_node(t0, "X", None, None, 3, 10);
             t.downgrade(t0, "X", "w");
             t.pin(t0);
             t.wstore(t0, WC::Root(0), Some("w"), 0);
+            if co_park != 0 {
+                t.clone_rc(t0, "X", "Xd");
+                t.store(t0, C::Root(0), Some("Xd"), 0);
+            }
             t.unpin(t0, 0);
             t.run(t0);
+            if co_park != 0 {
+                t.pin(dd);
+                t.load(dd, C::Root(0), 0, "sx");
+                t.counted(dd, "sx", "X");
+                t.unpin(dd, 0);
+                t.run(dd);
+                t.swap_null(t0, C::Root(0), "Xs");
+                t.drop_rc(t0, "Xs");
+                t.run(t0);
+                // D starts releasing its reference and is parked inside
+                t.drop_rc(dd, "X");
+                t.run_until_site(dd, co_park, co_nth);
+            }
             if rival > 0 {
                 t.pin(u2);
                 t.wload(u2, WC::Root(0), 0, "ws");
@@ -182,8 +203,15 @@ pub fn t2() -> BoxedStrategy<Value> {
             t.run(u);
             // 1. last strong drop
             t.drop_rc(t0, "X");
+            if co_park != 0 && co_resume == 0 {
+                t.run(t0);
+                t.run(dd);
+            }
             t.advance(t0, a_r);
             t.run(t0);
+            if co_park != 0 && co_resume == 1 {
+                t.run(dd);
+            }
             // 2. upgrade, parked inside
             if via_snapshot {
                 t.pin(u);
@@ -202,6 +230,9 @@ pub fn t2() -> BoxedStrategy<Value> {
                     t.drop_rc(u2, "Xr");
                 }
                 t.run(u2);
+            }
+            if co_park != 0 && co_resume == 2 {
+                t.run(dd);
             }
             // 3. the owner's side collects (possibly itself parked inside try_destruct)
             t.advance(t0, b_r);
